@@ -1,6 +1,8 @@
 package vc
 
 import (
+	"sort"
+	"go/ast"
 	"runtime/debug"
 	"os"
 	"fmt"
@@ -98,6 +100,8 @@ type Frame struct {
 	entryState *State // state at function entry (for old())
 	loopOrd map[*ssa.BasicBlock]int
 	autoLoops map[int]*LoopSpec // automatic annotations of loops the contract does not mention
+	remap     map[int]*LoopSpec // actual loop ordinal -> annotation of the contract (after following "over" tags)
+	ctrOrd    map[int]int       // actual loop ordinal -> ordinal the contract uses for that loop (for _n<k>, _i<k>)
 	names  map[string][]nameCand
 	top    bool
 	iters  map[ssa.Value]string // map iterator -> visited state name
@@ -1007,12 +1011,135 @@ func (e *Exec) runBlocks(fr *Frame, order []*ssa.BasicBlock, dryHeader *ssa.Basi
 	}
 }
 
+// LoopTexts returns, for a function with source, the header texts of its loops in the order of the loop ordinals
+// ("range xs", "for i < n", "for"); nil when the loops of the syntax tree and of the SSA form cannot be paired one to one.
+func LoopTexts(fn *ssa.Function) []string {
+	syn := fn.Syntax()
+	if syn == nil {
+		return nil
+	}
+	var body *ast.BlockStmt
+	switch n := syn.(type) {
+	case *ast.FuncDecl:
+		body = n.Body
+	case *ast.FuncLit:
+		body = n.Body
+	}
+	if body == nil {
+		return nil
+	}
+	var texts []string
+	ast.Inspect(body, func(n ast.Node) bool {
+		switch n := n.(type) {
+		case *ast.FuncLit:
+			return false
+		case *ast.RangeStmt:
+			texts = append(texts, "range "+types.ExprString(n.X))
+		case *ast.ForStmt:
+			if n.Cond != nil {
+				texts = append(texts, "for "+types.ExprString(n.Cond))
+			} else {
+				texts = append(texts, "for")
+			}
+		}
+		return true
+	})
+	heads := 0
+	for _, b := range fn.Blocks {
+		if isLoopHeader(b) {
+			heads++
+		}
+	}
+	if heads != len(texts) {
+		return nil
+	}
+	return texts
+}
+
+// loopRemap pairs the contract's loop annotations with the loops of the current code: an annotation tagged
+// "over <text>" whose ordinal now carries another text follows the one loop that carries its text (if there is
+// exactly one such loop not claimed by an annotation that is still in place). Result: actual ordinal -> annotation.
+func (e *Exec) loopRemap(fr *Frame) map[int]*LoopSpec {
+	if fr.remap != nil {
+		return fr.remap
+	}
+	fr.remap = map[int]*LoopSpec{}
+	fr.ctrOrd = map[int]int{}
+	if fr.ctr == nil {
+		return fr.remap
+	}
+	texts := LoopTexts(fr.fn)
+	allTagged := texts != nil
+	var ords []int
+	for ord, sp := range fr.ctr.Loops {
+		ords = append(ords, ord)
+		if sp.Over == "" {
+			allTagged = false
+		}
+	}
+	sort.Ints(ords)
+	if !allTagged {
+		// without tags (or without a syntax tree) the annotations stay at their ordinals
+		for _, ord := range ords {
+			fr.remap[ord] = fr.ctr.Loops[ord]
+			fr.ctrOrd[ord] = ord
+		}
+		return fr.remap
+	}
+	// loops keep their relative order when loops are inserted or removed: align the contract's sequence of header
+	// texts with the current one (longest common subsequence, ties resolved towards the end of both sequences)
+	n, m := len(ords), len(texts)
+	lcs := make([][]int, n+1)
+	for a := range lcs {
+		lcs[a] = make([]int, m+1)
+	}
+	for a := 1; a <= n; a++ {
+		for b := 1; b <= m; b++ {
+			if fr.ctr.Loops[ords[a-1]].Over == texts[b-1] {
+				lcs[a][b] = lcs[a-1][b-1] + 1
+			} else if lcs[a-1][b] >= lcs[a][b-1] {
+				lcs[a][b] = lcs[a-1][b]
+			} else {
+				lcs[a][b] = lcs[a][b-1]
+			}
+		}
+	}
+	matched := map[int]bool{}
+	for a, b := n, m; a > 0 && b > 0; {
+		sp := fr.ctr.Loops[ords[a-1]]
+		switch {
+		case sp.Over == texts[b-1] && lcs[a][b] == lcs[a-1][b-1]+1:
+			fr.remap[b] = sp
+			fr.ctrOrd[b] = sp.Ordinal
+			matched[sp.Ordinal] = true
+			if b != sp.Ordinal {
+				e.P.Trusted[fmt.Sprintf("note: annotations of loop #%d (%s) of %s follow their loop to ordinal %d", sp.Ordinal, sp.Over, FuncKey(fr.fn), b)] = true
+			}
+			a, b = a-1, b-1
+		case lcs[a-1][b] >= lcs[a][b-1]:
+			a--
+		default:
+			b--
+		}
+	}
+	for _, ord := range ords {
+		// an annotation whose loop is gone (or whose header was rewritten) stays where the contract says, if free
+		if !matched[ord] {
+			if _, taken := fr.remap[ord]; !taken {
+				fr.remap[ord] = fr.ctr.Loops[ord]
+				fr.ctrOrd[ord] = ord
+			}
+		}
+	}
+	return fr.remap
+}
+
 // loopSpec: the annotations of the loop with header h, or the automatic ones.
 func (e *Exec) loopSpec(fr *Frame, h *ssa.BasicBlock) *LoopSpec {
 	ord := fr.loopOrd[h]
 	var spec *LoopSpec
 	if fr.ctr != nil {
-		spec = fr.ctr.Loops[ord]
+		spec = e.loopRemap(fr)[ord]
 	}
 	if spec == nil && fr.autoLoops != nil {
 		spec = fr.autoLoops[ord]
